@@ -17,6 +17,8 @@
 (*                    hmacauth.SignRequest, RequestSigner.Sign: both read  *)
 (*                    the body and put it back                             *)
 (*   Director         DirectorFunc for a bare-host `to`                    *)
+(*   HopByHop         ReverseProxy removes hop-by-hop headers, including   *)
+(*                    those the client names in Connection                 *)
 (*   Transport        net/http writes the outbound request (Content-Length *)
 (*                    regenerated from the body length)                    *)
 (*   UpstreamReceive  what the backend reads from its socket               *)
@@ -40,10 +42,14 @@ CONSTANTS Order,      \* "code": as implemented; "signFirst": sign before authen
                       \* "stripLast": strip the cookie after signing (both only to show the rules discriminate)
           CLNormalised, \* TRUE: the signers cover the Content-Length the transport will put on the wire (ideal);
                       \*       FALSE: they cover the inbound header, which net/http regenerates afterwards (as implemented, D9)
+          HopSafe,    \* TRUE: a client's Connection header cannot take proxy-asserted or covered headers off the outbound
+                      \*       request after signing (ideal); FALSE: httputil.ReverseProxy deletes every header the client
+                      \*       names in Connection, after the Director, i.e. after SetIdentity and signing (as implemented, D10)
           D1Fixed,    \* TRUE: identity headers are scrubbed on the whitelisted path and Access-Token is deleted
                       \*       before the conditional set (fixes/D1.diff); FALSE: the code as first found
           BigBodies,  \* include the 1 MiB body class
-          Families    \* which cell families Init admits ("id": C03 focus, "sig": C12 focus, "mini": a cross-section)
+          Families    \* which cell families Init admits ("id": C03 focus, "sig": C12 focus,
+                      \* "hop": client Connection header naming asserted / covered headers, "mini": a cross-section)
 
 IdH  == {"user", "email", "groups", "token"}
 IdH3 == {"user", "email", "groups"}
@@ -55,6 +61,8 @@ CovLay == {"absent", "single", "multi", "empty", "odd"}
 Meths == {"get", "head", "options", "delete", "post", "put"}      \* put: PUT or PATCH
 WriteMeths == {"post", "put"}
 Tgts == {"plain", "enc", "query", "encquery", "oddquery"}
+Conns == {"none", "id", "sig", "cov"}   \* what the client's Connection header names besides "close": nothing / the four
+                                        \* identity headers / the signature headers / the covered headers it sent itself
 
 \* values Go's server hands to the handler for one header name (odd spellings canonicalise to the same key)
 ClientVals(l) == CASE l = "absent" -> <<>>
@@ -106,7 +114,7 @@ Signed(q, s) == [Covered(s) EXCEPT !.clen = IF CLNormalised THEN WireCLen(q) ELS
 
 Start(q) == [hdr |-> [h \in IdH |-> ClientVals(q.idh[h])], cov |-> CovVals(q.cov), cks |-> CkSeq(q.ck),
              tgt |-> q.tgt, body |-> q.body, clen |-> CLen(q),
-             snapH |-> NoSnap, snapR |-> NoSnap, alive |-> TRUE, white |-> FALSE, authed |-> FALSE]
+             snapH |-> NoSnap, snapR |-> NoSnap, alive |-> TRUE, white |-> FALSE, authed |-> FALSE, sigGone |-> FALSE]
 
 \* http.Request.Cookie(name): the first pair of that name decides
 SessionLoads(cks) ==
@@ -133,12 +141,18 @@ StSignH(q, s) == IF q.hmac THEN [s EXCEPT !.snapH = Signed(q, s)] ELSE s
 StSignR(q, s) == IF q.signer THEN [s EXCEPT !.snapR = Signed(q, s)] ELSE s
 \* bare-host `to`: scheme/host only; adds X-Forwarded-Host (not covered)
 StDirector(q, s) == s
+\* ReverseProxy.ServeHTTP, after the Director: hop-by-hop headers, including every header named in Connection
+StHop(q, s) ==
+   IF HopSafe \/ q.conn = "none" THEN s
+   ELSE CASE q.conn = "id"  -> [s EXCEPT !.hdr = [h \in IdH |-> <<>>]]
+          [] q.conn = "sig" -> [s EXCEPT !.sigGone = TRUE]
+          [] q.conn = "cov" -> [s EXCEPT !.cov = <<>>]
 \* http.Transport writes the request: Content-Length is regenerated
 StTransport(q, s) == [s EXCEPT !.clen = WireCLen(q)]
 
-Stages == CASE Order = "code"      -> <<"whitelist", "auth", "inject", "setid", "delcookie", "signh", "signr", "director", "transport">>
-            [] Order = "signFirst" -> <<"whitelist", "signh", "signr", "auth", "inject", "setid", "delcookie", "director", "transport">>
-            [] Order = "stripLast" -> <<"whitelist", "auth", "inject", "setid", "signh", "signr", "delcookie", "director", "transport">>
+Stages == CASE Order = "code"      -> <<"whitelist", "auth", "inject", "setid", "delcookie", "signh", "signr", "director", "hop", "transport">>
+            [] Order = "signFirst" -> <<"whitelist", "signh", "signr", "auth", "inject", "setid", "delcookie", "director", "hop", "transport">>
+            [] Order = "stripLast" -> <<"whitelist", "auth", "inject", "setid", "signh", "signr", "delcookie", "director", "hop", "transport">>
 
 Apply(st, q, s) ==
    IF ~s.alive THEN s
@@ -150,6 +164,7 @@ Apply(st, q, s) ==
           [] st = "signh"     -> StSignH(q, s)
           [] st = "signr"     -> StSignR(q, s)
           [] st = "director"  -> StDirector(q, s)
+          [] st = "hop"       -> StHop(q, s)
           [] st = "transport" -> StTransport(q, s)
 
 RECURSIVE Run(_, _, _)
@@ -170,8 +185,8 @@ Receive(q, s) ==
          sessCookie |-> \E k \in 1..Len(s.cks) : SessNamed(s.cks[k]),
          others |-> [k \in 1..Len(sent) |-> IF Count(s.cks, sent[k]) = 1 THEN "ok"
                                             ELSE IF Count(s.cks, sent[k]) = 0 THEN "missing" ELSE "dup"],
-         rsa  |-> IF ~q.signer THEN "nosig" ELSE IF s.snapR = Covered(s) THEN "ok" ELSE "bad",
-         hmac |-> IF ~q.hmac THEN "nosig" ELSE IF s.snapH = Covered(s) THEN "ok" ELSE "bad",
+         rsa  |-> IF ~q.signer \/ s.sigGone THEN "nosig" ELSE IF s.snapR = Covered(s) THEN "ok" ELSE "bad",
+         hmac |-> IF ~q.hmac \/ s.sigGone THEN "nosig" ELSE IF s.snapH = Covered(s) THEN "ok" ELSE "bad",
          bodyOK |-> s.body = q.body,
          pertR |-> <<>>, pertH |-> <<>>]
 
@@ -239,7 +254,7 @@ BodyFr == {<<"none", "sized">>} \cup
           (({"empty", "small", "binary"} \cup (IF BigBodies THEN {"big"} ELSE {})) \X {"sized", "chunked"})
 
 Cell(fam, mode, sess, idh, ck, pass, inj, cov, meth, tgt, body, fr, signer, hmac) ==
-   [fam |-> fam, mode |-> mode, sess |-> sess, idh |-> idh, ck |-> ck, pass |-> pass, inject |-> inj,
+   [fam |-> fam, conn |-> "none", mode |-> mode, sess |-> sess, idh |-> idh, ck |-> ck, pass |-> pass, inject |-> inj,
     cov |-> cov, meth |-> meth, tgt |-> tgt, body |-> body, framing |-> fr, signer |-> signer, hmac |-> hmac]
 
 IdMB(mode) == IF mode = "preflight" THEN {<<"options", "none", "sized">>}
@@ -263,9 +278,16 @@ CellsMini(mode) ==
         meth \in (IF mode = "preflight" THEN {"options"} ELSE Meths),
         bf \in {<<"none", "sized">>, <<"empty", "sized">>, <<"small", "sized">>, <<"small", "chunked">>} }
 
+\* the client's Connection header names headers the proxy asserts or covers
+CellsHop(mode) ==
+   { [Cell("hop", mode, FullSess, idh, ck, TRUE, "none", "single", mb[1], "plain", mb[2], mb[3], TRUE, TRUE) EXCEPT !.conn = cn] :
+        idh \in {Absent, AllLay("one")}, ck \in {"only", "middle"}, cn \in Conns \ {"none"},
+        mb \in {<<"get", "none", "sized">>, <<"post", "small", "sized">>, <<"put", "small", "chunked">>} }
+
 IsCell(c) == \/ "id" \in Families /\ \E mode \in Modes : c \in CellsId(mode)
              \/ "sig" \in Families /\ \E mode \in {"auth", "skip"} : c \in CellsSig(mode)
              \/ "mini" \in Families /\ \E mode \in Modes : c \in CellsMini(mode)
+             \/ "hop" \in Families /\ \E mode \in {"auth", "skip"} : c \in CellsHop(mode)
 
 -----------------------------------------------------------------------------
 (* The model: one request travelling through the stages *)
@@ -290,13 +312,14 @@ DeleteCookie  == StageAction("delcookie")
 SignHMAC      == StageAction("signh")
 SignRSA       == StageAction("signr")
 Director      == StageAction("director")
+HopByHop      == StageAction("hop")
 Transport     == StageAction("transport")
 UpstreamReceive ==
    /\ pc = Len(Stages) + 1
    /\ out' = Receive(q, s) /\ pc' = pc + 1 /\ UNCHANGED <<q, s>>
 
 Next == Whitelist \/ Authenticate \/ InjectHeaders \/ SetIdentity \/ DeleteCookie \/ SignHMAC \/ SignRSA
-        \/ Director \/ Transport \/ UpstreamReceive
+        \/ Director \/ HopByHop \/ Transport \/ UpstreamReceive
 Spec == Init /\ [][Next]_vars
 
 Done == pc = Len(Stages) + 2
@@ -313,8 +336,8 @@ RulesHold == Done => Violated(q, out) = {}
 ComposedAgrees == Done => out = Outcome(q)
 \* C12, design level: what was signed is what is received
 SignedIsReceived ==
-   (Done /\ out.fwd) => /\ q.signer => (s.snapR.taken /\ s.snapR = Covered(s))
-                        /\ q.hmac => (s.snapH.taken /\ s.snapH = Covered(s))
+   (Done /\ out.fwd) => /\ q.signer => (s.snapR.taken /\ ~s.sigGone /\ s.snapR = Covered(s))
+                        /\ q.hmac => (s.snapH.taken /\ ~s.sigGone /\ s.snapH = Covered(s))
 BodyIntact == (Done /\ out.fwd) => s.body = q.body
 \* order obligations: at signing time the cookie is stripped and the identity is the session's
 SignedAfterStrip ==
